@@ -30,6 +30,8 @@ func runC04(c *Ctx) {
 	checkOpFieldValidation(c)
 	checkAuthorSplit(c)
 	checkEntityIdFirstOp(c)
+	checkComparator(c, "R1.1") // "same order" on every read: the pack order must be a total function of stored data
+	checkOpsConcatenation(c)
 }
 
 // R4.1
@@ -720,7 +722,12 @@ func unconditionalInLoopExceptOk(w *World, ins ssa.Instruction) bool {
 		}
 		if ex, ok := cc.If.Cond.(*ssa.Extract); ok && ex.Index == 1 && cc.Edge == 0 {
 			if _, isTA := ex.Tuple.(*ssa.TypeAssert); isTA {
-				continue
+				// the other edge (not an OperationWithFiles) must go on with the next element, not leave the loop
+				other := cc.If.Block().Succs[1]
+				if hdr != nil && (other == hdr || inLoop(other, hdr)) {
+					continue
+				}
+				return false
 			}
 		}
 		return false
